@@ -13,7 +13,7 @@ from collections import Counter
 
 import numpy as np
 
-from ..core import choice, draw_cfg
+from ..core import choice, draw_cfg, maybe_long
 from ..problems import FAMILIES, build_problem, draw_problem_spec
 from ..world import Act, Store
 
@@ -32,7 +32,7 @@ LEVEL_NOTE = (
 TECHNIQUE = "deterministic simulation: evaluation-budget cut at every evaluation index (interruption inside the line search), monotone-history oracle"
 DESIGN_REF = "DESIGN.md 4.1"
 BUDGET = {
-    "quick": {"plans": 4000, "wall": 90, "chunk": 8},
+    "quick": {"plans": 2500, "wall": 90, "chunk": 8},
     "thorough": {"plans": 40000, "wall": 900, "chunk": 4},
 }
 RULE = (
@@ -65,6 +65,7 @@ def gen(rng, tier, index):
         cfg["xtol_linesearch"] = float(choice(rng, [1e-10, 0.1, 0.5]))
     if rng.random() < 0.2:
         cfg["max_steplength"] = float(choice(rng, [0.5, 2.0, 1e3]))
+    maybe_long(rng, spec, cfg)
     maxls_alt = int(choice(rng, [1, 2, 3, 5, 20]))
     pre = bool(rng.random() < 0.25) and cfg.get("scaler") is None
     plan = {
